@@ -239,6 +239,13 @@ def r42(rep: Report, ctx: Ctx) -> None:
                          "predecessor sets are crossed or dropped"))
         if loop is not None:
             comps = [c for c in ast.walk(loop) if isinstance(c, ast.ListComp)]
+            if not comps:   # the expansion may live in a helper
+                for site in ctx.cg.sites_in(r):
+                    if any(x is site.node for x in ast.walk(loop)):
+                        for callee in site.callees:
+                            comps += [c for c in ast.walk(callee.node)
+                                      if isinstance(c, ast.ListComp)
+                                      and len(c.generators) == 2]
             ok = False
             if comps:
                 c = comps[0]
